@@ -24,3 +24,9 @@ pub fn param_from_iso2(t: &Iso2) -> T2Storage {
     let z = t.rotation.angle();
     T2Storage::new(v.x, v.y, z)
 }
+
+/// Verification hook: re-exports the private 2D point-to-surface Jacobian.
+#[cfg(feature = "verif")]
+pub mod verif {
+    pub use super::jacobian::point_surface_jacobian;
+}
